@@ -6,6 +6,7 @@ let () =
   | _ :: "stack" :: fence :: _ -> R_stack.run (int_of_string fence)
   | _ :: "arena" :: _ -> R_arena.run ()
   | _ :: "minblock" :: _ -> R_minblock.run ()
+  | _ :: "lowlevel" :: "newloop" :: _ -> R_lowlevel.run_newloop ()
   | _ :: "lowlevel" :: _ -> R_lowlevel.run ()
   | _ :: "leak" :: "global" :: _ -> R_leak.run_global ()
   | _ :: "leak" :: _ -> R_leak.run ()
